@@ -8,7 +8,7 @@
    Proofs/GenAC.v proves: checker = true  ->  for ALL haystacks the search model equals the
    specification.  The checker is extracted and run on the arrays the implementation itself
    serialised, so the search properties are decided per built automaton for all haystacks. *)
-From DV Require Import Model.Base Model.Nfa Model.BwBuild Model.BwSearch.
+From DV Require Import Model.Base Model.Nfa Model.BwBuild Model.BwSearch Model.Spec.
 
 Fixpoint tails (w : list N) : list (list N) :=
   w :: match w with [] => [] | _ :: r => tails r end.
@@ -117,6 +117,17 @@ Fixpoint tree_count (fuel : nat) (s : N) : N :=
   end.
 Definition cert_count : N := tree_count (S max_plen) ROOT.
 
+(* the strings of all nodes of the goto tree below (s, u) (C15; used in proofs only) *)
+Fixpoint tree_nodes (fuel : nat) (s : N) (u : list N) : list (list N) :=
+  match fuel with
+  | O => []
+  | S f =>
+    u :: flat_map (fun c => match child s c with
+                            | Ok (Some t) => tree_nodes f t (u ++ [c])
+                            | _ => []
+                            end) labels
+  end.
+
 (* ---- the search loops, abstractly (the concrete models are proved equal to these) -------- *)
 Variable skip : N -> bool.           (* labels on which next_state answers ROOT at once *)
 
@@ -176,3 +187,10 @@ Definition bw_safe_b {V} (A : bw_automaton V) : bool :=
   (0 <? len) && (len mod 256 =? 0)
   && forallb (bw_slot_ok len nout) (bw_states A)
   && forallb (fun o => o_parent o <=? nout) (bw_outputs A).
+
+(* ---- C15: the reported statistics against the certified goto tree -------------------------- *)
+Definition bw_stats_ok {V} (A : bw_automaton V) (pvs : list (list N * V)) : bool :=
+  let cnt := bw_cert_count A pvs in
+  (bw_num_states A =? cnt)
+  && (cnt =? 1 + N.of_nat (length (Spec.distinct_nonempty_prefixes V pvs)))
+  && (bw_num_states A <=? N.of_nat (length (bw_states A))).
